@@ -25,6 +25,8 @@ def run(h, cls, nparams, modes, n, dagger, hbar_sym=False):
     else:
         hb = 2
     ps = [h.real(f"p{k}") for k in range(nparams)]
+    for k_, v_ in (("cls", cls), ("modes", list(modes)), ("n", n), ("dagger", bool(dagger)), ("nparams", nparams)):
+        h._reg(k_, v_)
     g = getattr(ops, cls)(*ps)
     if dagger:
         g = g.H
@@ -59,7 +61,7 @@ def reg_variants(ns):
 
 
 GATES = [("Xgate", 1, 1, True), ("Zgate", 1, 1, True), ("Pgate", 1, 1, False), ("Fouriergate", 0, 1, False),
-         ("MZgate", 2, 2, False), ("S2gate", 2, 2, False), ("CXgate", 1, 2, False), ("CZgate", 1, 2, False)]
+         ("MZgate", 2, 2, False), ("sMZgate", 2, 2, False), ("S2gate", 2, 2, False), ("CXgate", 1, 2, False), ("CZgate", 1, 2, False)]
 
 for (cls, npar, ns, hsym) in GATES:
     for modes, n in reg_variants(ns):
@@ -73,7 +75,8 @@ for (cls, npar, ns, hsym) in GATES:
                 return fn
             PROOFS.append(Proof(props, f"{OPS}:{cls}._decompose", mkproof(),
                                 name=f"{cls}.decompose/modes={','.join(map(str, modes))}/n={n}/{'dagger' if dg else 'plain'}",
-                                uses=[f"{OPS}:Gate.decompose"]))
+                                uses=[f"{OPS}:Gate.decompose"],
+                                native="from native.c01_backends import replay_decomposition; replay_decomposition(OBLIGATION, I)"))
 
 
 # ---------------------------------------------------------------------------------------------
